@@ -72,6 +72,8 @@ StructOk(e_) == /\ \A pr_ \in SeqSet(e_.alias) : pr_[1][1] \in 1..MaxObjs /\ pr_
                 /\ \A g_ \in SeqSet(e_.given) : g_[1] \in 1..MaxObjs
                 /\ \A g_ \in SeqSet(e_.chg) : g_[1] \in 1..MaxObjs
 
+\* (an empty array shares memory with nothing)
+MGiven(r_) == {x_ \in r_.obs.given : PRef(r_.s, x_)[3] > 0}
 Verdict(e_, r_) ==
     IF e_.a[1] = "Reject"
       THEN (IF e_.exc = "" THEN "bad-argument-accepted:" \o e_.a[3]
@@ -86,10 +88,10 @@ Verdict(e_, r_) ==
       THEN (IF LoggedPairs(e_) \ Pairs(r_.s) # {}
               THEN "aliasing:unexpected:" \o PairName(r_.s, CHOOSE pr_ \in LoggedPairs(e_) \ Pairs(r_.s) : TRUE)
               ELSE "aliasing:missing:" \o PairName(r_.s, CHOOSE pr_ \in Pairs(r_.s) \ LoggedPairs(e_) : TRUE))
-    ELSE IF r_.obs.given # {<<g_[1], g_[2]>> : g_ \in SeqSet(e_.given)}
-      THEN (IF r_.obs.given \ {<<g_[1], g_[2]>> : g_ \in SeqSet(e_.given)} # {}
-              THEN "argument-array-copied:" \o Name(r_.s, CHOOSE g_ \in r_.obs.given \ {<<h_[1], h_[2]>> : h_ \in SeqSet(e_.given)} : TRUE)
-              ELSE "argument-array-kept:" \o Name(r_.s, CHOOSE g_ \in {<<h_[1], h_[2]>> : h_ \in SeqSet(e_.given)} \ r_.obs.given : TRUE))
+    ELSE IF MGiven(r_) # {<<g_[1], g_[2]>> : g_ \in SeqSet(e_.given)}
+      THEN (IF MGiven(r_) \ {<<g_[1], g_[2]>> : g_ \in SeqSet(e_.given)} # {}
+              THEN "argument-array-copied:" \o Name(r_.s, CHOOSE g_ \in MGiven(r_) \ {<<h_[1], h_[2]>> : h_ \in SeqSet(e_.given)} : TRUE)
+              ELSE "argument-array-kept:" \o Name(r_.s, CHOOSE g_ \in {<<h_[1], h_[2]>> : h_ \in SeqSet(e_.given)} \ MGiven(r_) : TRUE))
     ELSE IF e_.calias # <<>> THEN "array-aliases-cache"
     ELSE IF ~e_.cclean THEN "cached-array-modified"
     ELSE IF e_.callerchg # 0 /\ e_.a[1] # "Edit" THEN "caller-buffer-modified"
